@@ -21,10 +21,18 @@ pub enum Number {
 impl Number {
     pub fn negate(&self) -> Option<Self> {
         use Number::*;
+        // the operand may itself be the (negative) result of folding: toggle the sign
+        // instead of stacking a second `-` in front of it.
+        fn toggle_sign(x: &str) -> String {
+            match x.strip_prefix('-') {
+                Some(magnitude) => magnitude.to_owned(),
+                None => "-".to_owned() + x,
+            }
+        }
         Some(match self {
-            Integer(x) => Integer("-".to_owned() + x),
-            BigInt(x) => BigInt("-".to_owned() + x),
-            Float(x) => Float("-".to_owned() + x),
+            Integer(x) => Integer(toggle_sign(x)),
+            BigInt(x) => BigInt(toggle_sign(x)),
+            Float(x) => Float(toggle_sign(x)),
             Byte(_) => return None,
         })
     }
